@@ -33,8 +33,9 @@
 //     first burst) / (same ratio of the input) lies within the calibrated band.  Domain: first burst
 //     >= 400 ms, the first 100 ms of either burst skipped, no DTX packet inside either burst (the encoder
 //     judged them active; stationary tones are legitimately replaced by comfort noise), ample buffer and a
-//     bitrate AUTO or 12..64 kb/s per channel (below, the speech layer can starve and emit empty frames; far above,
-//     the SILK layer was seen to saturate the decoded signal, observation C20F2, which voids a power comparison).
+//     bitrate AUTO or 12..64 kb/s per channel and at least 20 bytes per channel and packet (below, the speech layer can starve and emit empty frames; far above,
+//     the SILK layer was seen to saturate the decoded signal); stationary tonal families are left out when the SILK
+//     layer can be chosen (observation C20F2: occasional instability of the decoded power, see below).
 // Calibration mode: C20_CALIB_OUT=<file> appends one JSON line per case and
 // skips D2/D3 (tools/c20_calibrate.py aggregates into calib/C20.json).
 #include "c05_common.hpp"
@@ -297,6 +298,13 @@ int vp_case(Choice& c, Report& rep) {
   double rec_lo[2] = {1e30, 1e30}, rec_hi[2] = {0, 0}; bool rec_seen = false;
   const std::vector<float>* outs[2] = {&outA, &outB};
   const size_t skip = (size_t)Fs / 10;
+  // Observation C20F2 (C04 territory, replays/C20/observation-silk-layer-tonal-instability.case and
+  // observation-silk-cbr-high-rate-saturates.cpp): when the SILK layer codes stationary tonal input (multitone, tone
+  // pair, square) the decoded signal is occasionally unstable - 5..200 x the input power for up to a second, worst in
+  // CBR - which voids a power comparison between bursts; the recovery clause keeps speech-like and noise input for
+  // those configurations and all families when only CELT can be used.
+  const bool tonal = family != sig::SPEECHLIKE && family != sig::NOISE;
+  const bool tonal_silk_skip = tonal && silk_possible && rep.exclude("C20F2");
   auto any_dtx = [&](int a, int b) { for (int i = a; i < b; i++) if (plen[i] <= 2) return true; return false; };
   const bool sane_rate = M >= 1276 && (bitrate == OPUS_AUTO || bitrate >= 12000 * ch);
   for (size_t k = 0; k < segs.size(); k++) {
@@ -316,7 +324,7 @@ int vp_case(Choice& c, Report& rep) {
       }
     }
     // D3: both bursts long enough, coded throughout (no DTX packet inside them: the encoder judged them active), sane rate
-    if (segs[k].active && k >= 2 && sane_rate && (bitrate == OPUS_AUTO || bitrate <= 64000 * ch) && s1 - s0 >= 3 * (size_t)Fs / 10 && (size_t)segs[0].frames * fs >= 2 * (size_t)Fs / 5 && segs[k - 1].frames > 0
+    if (segs[k].active && k >= 2 && sane_rate && !tonal_silk_skip && (bitrate == OPUS_AUTO || (bitrate <= 64000 * ch && (int64_t)bitrate * fs >= 20ll * ch * 8 * Fs)) && s1 - s0 >= 3 * (size_t)Fs / 10 && (size_t)segs[0].frames * fs >= 2 * (size_t)Fs / 5 && segs[k - 1].frames > 0
         && !any_dtx(0, seg_start[1]) && !any_dtx(fa, fb)) {
       const size_t b0 = 0, b1 = (size_t)segs[0].frames * fs;
       double pin1 = power(pcm, b0 + skip, b1), pin2 = power(pcm, s0 + skip, s1);
